@@ -40,7 +40,7 @@ func c16ProbeFirst(e *Env) {
 	}
 	isDry := func(v ssa.Value) bool {
 		p, ok := e.C.PathOf(v)
-		return ok && p.Dotted() == "dry"
+		return ok && p.Dotted() == e.agentDryField()
 	}
 	agentOrdered(e, "the already-running probe passed", a.PassedGuard(apiProbe),
 		[]string{apiSchedule, apiHistory, apiServe},
